@@ -53,7 +53,7 @@ def approx_box(cell):
     return np.array([[ax, 0, 0], [bx, by, 0], [cx, cy, cz_]])
 
 
-def gen_cell(rng, kind):
+def gen_cell(rng, kind, pattern=None):
     if kind == "none":
         return None
     if kind == "cubic":
@@ -63,15 +63,44 @@ def gen_cell(rng, kind):
         return {"lengths": [L, L, L], "angles": [90.0, 90.0, 90.0]}
     if kind == "ortho":
         return {"lengths": [rng.randint(int(1.5 * G), 5 * G) for _ in range(3)], "angles": [90.0, 90.0, 90.0]}
+    # non-orthorhombic cells: every pattern of exactly-zero off-diagonal entries (b_x, c_x, c_y) of the
+    # lower-triangular cell matrix must occur (the kernels decide "triclinic?" from individual entries):
+    #   b_x = b*cos(gamma), c_x = c*cos(beta), c_y = c*(cos(alpha) - cos(beta)*cos(gamma))/sin(gamma)
     while True:
-        cell = {"lengths": [rng.randint(2 * G, 5 * G) for _ in range(3)],
-                "angles": [round(rng.uniform(62, 118), 3) for _ in range(3)]}
-        if rng.random() < 0.25:
-            cell["angles"][rng.randrange(3)] = 90.0
-        al, be, ga = [math.radians(x) for x in cell["angles"]]
+        L = [rng.randint(2 * G, 5 * G) for _ in range(3)]
+        ang = lambda: round(rng.choice([rng.uniform(62, 88), rng.uniform(92, 118)]), 3)   # noqa: E731
+        pat = pattern or rng.choice(PATTERNS + ["general"])
+        if pat == "bx":            # monoclinic, unique axis c
+            A = [90.0, 90.0, ang()]
+        elif pat == "cx":          # monoclinic, unique axis b
+            A = [90.0, ang(), 90.0]
+        elif pat == "cy":          # monoclinic, unique axis a: only c_y is non-zero
+            A = [ang(), 90.0, 90.0]
+        elif pat == "bx_cx":       # c_y = 0 although neither beta nor gamma is 90: cos(alpha) = cos(beta)cos(gamma)
+            be, ga = ang(), ang()
+            A = [math.degrees(math.acos(math.cos(math.radians(be)) * math.cos(math.radians(ga)))), be, ga]
+        elif pat == "bx_cy":
+            A = [ang(), 90.0, ang()]
+        elif pat == "cx_cy":
+            A = [ang(), ang(), 90.0]
+        elif pat == "hexagonal":
+            L[1] = L[0]
+            A = [90.0, 90.0, rng.choice([120.0, 60.0])]
+        elif pat == "rhombic-dodecahedron":      # xy-square setting: a=(d,0,0) b=(0,d,0) c=(d/2,d/2,d/sqrt2)
+            L[1] = L[2] = L[0]
+            A = [60.0, 60.0, 90.0]
+        else:
+            A = [ang(), ang(), ang()]
+            if rng.random() < 0.25:
+                A[rng.randrange(3)] = 90.0
+        cell = {"lengths": L, "angles": A, "pattern": pat}
+        al, be, ga = [math.radians(x) for x in A]
         vol2 = 1 - math.cos(al) ** 2 - math.cos(be) ** 2 - math.cos(ga) ** 2 + 2 * math.cos(al) * math.cos(be) * math.cos(ga)
         if vol2 > 0.2:
             return cell
+
+
+PATTERNS = ["bx", "cx", "cy", "bx_cx", "bx_cy", "cx_cy", "general", "hexagonal", "rhombic-dodecahedron"]
 
 
 def widths(B):
@@ -115,6 +144,22 @@ def gen_positions(rng, n, cell, dist, c):
         # keep a few inside so that mixed pairs exist
         for i in range(0, n, 3):
             P[i] = [rng.random() * diag[k] for k in range(3)]
+    elif dist == "faces":     # pairs whose minimum image crosses one face of the cell (each face in turn), all in the cell
+        Br = B.copy() if B is not None else np.diag(diag)
+        for i in range(0, n, 2):
+            face = (i // 2) % 3
+            p = np.array([rng.uniform(0.05, 0.95) * diag[k] for k in range(3)])
+            p[face] = rng.uniform(0.0, 0.45) * cn                      # just inside the lower face
+            d = np.array([rng.gauss(0, 1) for _ in range(3)])
+            d *= rng.uniform(0.3, 0.95) * cn / np.linalg.norm(d)
+            d[face] = -abs(d[face]) - 0.5 * p[face]                    # the partner is beyond that face ...
+            q = p + d
+            for r in (2, 1, 0):                                        # ... i.e. near the opposite face once wrapped
+                q = q - math.floor(q[r] / Br[r, r]) * Br[r]
+                p = p - math.floor(p[r] / Br[r, r]) * Br[r]
+            P.append(list(p))
+            if len(P) < n:
+                P.append(list(q))
     elif dist == "frac":      # fractional coordinates of the cell vectors (typical MD data)
         for _ in range(n):
             f = [rng.random() for _ in range(3)]
@@ -152,14 +197,15 @@ def gen_cutoff(rng, cell, mode):
     return max(8, int(rng.uniform(0.1, 0.5) * w * G))
 
 
-def gen_case(rng, api, n, kind, dist, cmode, periodic=True):
-    cell = gen_cell(rng, kind)
-    if cell is None and dist in ("frac",):
+def gen_case(rng, api, n, kind, dist, cmode, periodic=True, pattern=None):
+    cell = gen_cell(rng, kind, pattern)
+    if cell is None and dist in ("frac", "faces"):
         dist = "uniform"
     c = gen_cutoff(rng, cell, cmode)
     xyz = gen_positions(rng, n, cell, dist, c)
     case = {"api": api, "xyz": xyz, "cell": cell, "c": c, "periodic": periodic,
-            "kind": kind if periodic else kind + "/nonperiodic", "dist": dist, "cmode": cmode}
+            "kind": (kind + ("/" + cell["pattern"] if cell and cell.get("pattern") else "")) if periodic else kind + "/nonperiodic",
+            "dist": dist, "cmode": cmode}
     if api == "nb":
         r = rng.random()
         nq = rng.randint(1, max(1, min(n, 12)))
@@ -184,8 +230,8 @@ def build_cases(ctx, scale=1.0):
     rng = ctx.rng
     quick = ctx.tier == "quick"
     cases = []
-    kinds = ["none", "cubic", "ortho", "ortho", "tric", "tric"]
-    dists_nl = ["uniform", "clustered", "boundary", "outside", "outside", "frac", "shifted"]
+    kinds = ["none", "cubic", "ortho", "tric", "tric", "tric"]
+    dists_nl = ["uniform", "clustered", "boundary", "outside", "frac", "shifted", "faces", "faces"]
     cmodes = ["tiny", "mid", "mid", "half", "half", "above"]
     n_small = int((300 if quick else 2500) * scale)
     for _ in range(n_small):
@@ -204,6 +250,12 @@ def build_cases(ctx, scale=1.0):
         n = rng.choice([1, 2, 3, 5, 8, 13, 21, 34, 55])
         per = rng.random() > 0.08
         cases.append(gen_case(rng, "nb", n, kind, dist, cm, per))
+    # every zero pattern of the off-diagonal cell entries, both searches, pairs crossing every face -- in every run
+    for pat in PATTERNS:
+        for api in ("nl", "nb"):
+            for k in range(int((2 if quick else 12) * scale) or 1):
+                cases.append(gen_case(rng, api, rng.choice([8, 12, 20, 30]), "tric", "faces" if k % 2 == 0 else rng.choice(["outside", "shifted", "uniform"]),
+                                      rng.choice(["mid", "half"]), True, pattern=pat))
     # medium and large frames
     med = [(200, 6), (600, 2)] if quick else [(200, 40), (600, 12), (1500, 4)]
     for n, cnt in med:
@@ -539,7 +591,8 @@ def run_cases(ctx, cases, replaying=False):
         nb_bad = {nb_idx[b] for b in bad}
     ctx.log("compute_neighbors compared with the model: %d differ" % len(nb_bad))
     # ---- compute_neighborlist: model (two variants) vs implementation
-    cur_bad, fix_bad = set(), set()
+    VARIANTS = ["nlist_cur", "nlist_fix", "nlist_fix2"]       # bit 0, 1, 2 of nl_code; most repaired last
+    agree = {}                                                  # case index -> set of variants reproducing the implementation
     if nl_idx:
         coq = []
         for i in nl_idx:
@@ -555,31 +608,26 @@ def run_cases(ctx, cases, replaying=False):
         if errs:
             ctx.break_("correspondence:coqc-evaluation(nl)", "\n".join(errs))
         for k, i in enumerate(nl_idx):
-            code = codes.get(k)
-            if code is None:      # not evaluated (coqc error): agrees with nothing
-                code = 3
-            if code in (1, 3):
-                cur_bad.add(i)
-            if code in (2, 3):
-                fix_bad.add(i)
-    ctx.log("compute_neighborlist compared with the model: %d differ from as-found, %d from repaired" % (len(cur_bad), len(fix_bad)))
-    # which variant describes the implementation on ALL voxel-list cases of this run
+            code = codes.get(k, 0)                              # not evaluated (coqc error): agrees with nothing
+            agree[i] = {v for b, v in enumerate(VARIANTS) if code >> b & 1}
+    ctx.log("compute_neighborlist compared with the model: frames disagreeing with %s" % {
+        v: sum(1 for i in nl_idx if v not in agree[i]) for v in VARIANTS})
+    # which variant describes the implementation on ALL voxel-list cases of this run (most repaired preferred)
     variant = None
     if nl_idx:
-        if not fix_bad:
-            variant = "nlist_fix"
-        elif not cur_bad:
-            variant = KNOWN_VARIANT
-        if replaying and variant is None:
-            pass
+        for v in reversed(VARIANTS):
+            if all(v in agree[i] for i in nl_idx):
+                variant = v
+                break
         ctx.notes.setdefault("coverage_extra", {})["nlist_variant_matching_impl"] = variant
         if variant is None:
-            worst = sorted(cur_bad & fix_bad or cur_bad, key=lambda i: len(cases[i]["xyz"]))[0]
+            badc = [i for i in nl_idx if not agree[i]] or [i for i in nl_idx if len(agree[i]) < 3]
+            worst = sorted(badc, key=lambda i: len(cases[i]["xyz"]))[0]
             ctx.break_("correspondence:neighborlist-model",
-                       "neither the as-found nor the repaired voxel-list model reproduces the implementation on all cases "
-                       "(%d/%d differ from as-found, %d/%d from repaired); smallest: %s -> %s" % (
-                           len(cur_bad), len(nl_idx), len(fix_bad), len(nl_idx), summary(cases[worst]),
-                           str(outs[worst]["res"])[:300]))
+                       "no variant of the voxel-list model (as found, wrapped, wrapped+all-y-voxels) reproduces the implementation on all "
+                       "frames (disagreeing: %s of %d); smallest: %s -> %s" % (
+                           {v: sum(1 for i in nl_idx if v not in agree[i]) for v in VARIANTS}, len(nl_idx),
+                           summary(cases[worst]), str(outs[worst]["res"])[:300]))
     if nb_bad:
         worst = sorted(nb_bad, key=lambda i: len(cases[i]["xyz"]))[0]
         ctx.break_("correspondence:neighbors-model",
@@ -595,10 +643,14 @@ def run_cases(ctx, cases, replaying=False):
         hist["pairs_within"] += nwithin
         ctx.count(summary(c), nontrivial=nwithin > 0,
                   bucket="%s/%s/%s/%s%s" % (c["api"], c.get("kind"), c.get("dist"), c.get("cmode"), "" if inside else "/outside-cell"))
-        # attribution is per frame (so that the replay of the case alone gives the same verdict): a miss is the known
-        # defect when the as-found model reproduces the implementation on this frame; a run whose frames do not all
-        # follow one variant is reported separately as a broken correspondence
-        explained = KNOWN_VARIANT if (c["api"] == "nl" and i not in cur_bad) else None
+        # attribution is per frame (so that the replay of the case alone gives the same verdict): a miss is explained by
+        # the most repaired model variant that reproduces the implementation on this frame; a run whose frames do not
+        # all follow one variant is reported separately as a broken correspondence
+        explained = None
+        if c["api"] == "nl":
+            for v in VARIANTS:
+                if v in agree.get(i, ()):
+                    explained = v
         cd = o.get("cd") or {}
         if in_q and cd:
             hist["cd_band_pairs"] += cd.get("band", 0)
